@@ -150,10 +150,16 @@ impl<'a> M<'a> {
                     self.amb = Some("a sender woken by its ticket sends on at that very instant while other work is ready");
                 }
             }
+            self.enqueue_one(t, id, &st);
+        }
+    }
+    /// control `id` reaches the job's queues at `t`
+    fn enqueue_one(&mut self, t: u64, id: u32, st: &Step) {
+        {
             if self.gone {
                 // ticket on a dead job: cancelled, resolves at once
                 self.out.push((t, Obs::Resolved { op: id }));
-                continue;
+                return;
             }
             self.outstanding.push(id);
             let tk = Some(id);
@@ -419,6 +425,22 @@ impl<'a> M<'a> {
                 self.emit(Obs::ProbeEnd { op: id });
                 self.resolve(tk);
             }
+            Ctl::Op(id, Op::RunSend { async_ms, inner }) => {
+                // a closure that sends a control to its own job: queued at the instant the closure sends it (for the
+                // async form: after its `async_ms`), behind whatever is queued already
+                let (c, p) = (self.cur.name(), self.prev.clone());
+                self.emit(Obs::Probe { op: id, cur: c, prev: p });
+                if let Some(ms) = async_ms {
+                    self.busy(ms);
+                }
+                // (sends from outside at this very instant were queued first: see run_model)
+                self.enqueue_arrivals_until(self.now);
+                self.enqueue_one(self.now, E1Scn::inner_id(id), &inner);
+                if async_ms.is_some() {
+                    self.emit(Obs::ProbeEnd { op: id });
+                }
+                self.resolve(tk);
+            }
             Ctl::Op(id, Op::SetHook { async_ms }) => {
                 self.hook = Some((id, async_ms));
                 self.resolve(tk);
@@ -476,7 +498,7 @@ pub fn run_model(scn: &E1Scn, out: Option<&RunOut>) -> ModelResult {
     if scn.children.iter().any(|c| c.wait_fail_after.is_some()) {
         return ModelResult::Ambiguous("outside the model's scope (a wait() failing in mid-run)");
     }
-    for st in scn.senders.iter().flatten() {
+    for (_, _, _, st) in scn.all_ops() {
         if matches!(st.op, Op::RunStall { .. }) {
             return ModelResult::Ambiguous("stalled job task (slow-node fault) is not modelled");
         }
@@ -510,6 +532,9 @@ pub fn run_model(scn: &E1Scn, out: Option<&RunOut>) -> ModelResult {
         let mut last: Option<(u64, u8)> = None;
         for r in &out.hist {
             if let Ev::CtlSend { sender, op, .. } = &r.ev {
+                if *op >= e1::INNER {
+                    continue; // sent from inside a closure on the job task: the model sends it itself
+                }
                 // two senders at one instant: which send the job task saw first between two of its own steps is not
                 // something the documentation orders
                 if let Some((t, s)) = last {
@@ -617,12 +642,7 @@ pub fn run_model(scn: &E1Scn, out: Option<&RunOut>) -> ModelResult {
         return ModelResult::Ambiguous(a);
     }
     // only tickets somebody awaits are observable
-    let observed: Vec<u32> = scn
-        .senders
-        .iter()
-        .enumerate()
-        .flat_map(|(si, steps)| steps.iter().enumerate().filter(|(_, s)| s.waiters > 0 || s.inline).map(move |(i, _)| E1Scn::op_id(si, i)))
-        .collect();
+    let observed: Vec<u32> = scn.all_ops().into_iter().filter(|(_, _, _, s)| s.waiters > 0 || s.inline).map(|(id, _, _, _)| id).collect();
     let mut out: Vec<(u64, Obs)> = m
         .out
         .into_iter()
@@ -675,7 +695,7 @@ pub fn observed_trace(scn: &E1Scn, out: &RunOut) -> Vec<(u64, Obs)> {
 // ------------------------------------------------------------------------------------------
 // scenario generation: bounded-exhaustive + random, single sender, tie-avoiding durations
 
-/// alphabet for the exhaustive part (19 letters)
+/// alphabet for the exhaustive part (22 letters)
 fn letter(k: u64, sig: &mut e1::SigAlloc) -> Op {
     match k {
         0 => Op::Start,
@@ -698,10 +718,17 @@ fn letter(k: u64, sig: &mut e1::SigAlloc) -> Op {
         // signal(ForceStop): kills without the job noticing until the process end is observed
         17 => Op::Signal { sig: 9 },
         // the timer's own control, sent by hand
-        _ => Op::RawContinue,
+        18 => Op::RawContinue,
+        // re-entrancy: closures that send a control to their own job from inside the job task
+        19 => Op::RunSend { async_ms: None, inner: Box::new(inner_step(Op::Start)) },
+        20 => Op::RunSend { async_ms: Some(7), inner: Box::new(inner_step(Op::TryRestart)) },
+        _ => Op::RunSend { async_ms: None, inner: Box::new(inner_step(Op::ToWait)) },
     }
 }
-pub const ALPHA: u64 = 19;
+fn inner_step(op: Op) -> Step {
+    Step { gap: 0, op, waiters: 1, inline: false, cancel_after: None, late_clone: None }
+}
+pub const ALPHA: u64 = 22;
 /// child behaviour classes with durations chosen off the grid of send instants and graces
 fn klass(k: u64) -> ChildSpec {
     match k {
@@ -795,6 +822,15 @@ pub fn gen_model_random(rng: &mut Rng) -> E1Scn {
             }
             Op::RunAsync { ms } => *ms = *rng.pick(&[0u64, 7, 31, 150]),
             Op::SetHook { async_ms: Some(ms) } => *ms = *rng.pick(&[3u64, 11, 45]),
+            Op::RunSend { async_ms, inner } => {
+                *async_ms = *rng.pick(&[None, None, Some(0u64), Some(7), Some(31)]);
+                let mut io = letter(rng.below(19), &mut sigs);
+                if let Op::StopSig { grace, .. } | Op::RestartSig { grace, .. } | Op::TryRestartSig { grace, .. } = &mut io {
+                    *grace = *rng.pick(&graces);
+                }
+                inner.op = io;
+                inner.waiters = rng.below(3) as u8;
+            }
             _ => {}
         }
         if k >= ALPHA {
@@ -926,6 +962,9 @@ impl Check for C09 {
         match run_model(scn, Some(out)) {
             ModelResult::Ambiguous(why) => {
                 stats.hit("probe:scenario-tied-not-compared");
+                if scn.has_reentrant() {
+                    stats.hit("probe:reentrant-scenario-tied-not-compared");
+                }
                 if scn.senders.len() > 1 {
                     stats.hit("probe:several-senders-tied-not-compared");
                 }
@@ -938,6 +977,9 @@ impl Check for C09 {
                 }
                 if scn.senders.iter().flatten().any(|s| s.inline) {
                     stats.hit("probe:awaiting-sender-compared-with-model");
+                }
+                if out.hist.iter().any(|r| matches!(r.ev, Ev::CtlSend { op, .. } if op >= e1::INNER)) {
+                    stats.hit("probe:control-sent-from-inside-a-closure-compared-with-model");
                 }
                 let got = observed_trace(scn, out);
                 // nothing beyond the end of the scenario can be compared (a grace period may outlast it: "wait for ever")
